@@ -22,3 +22,8 @@ THROW(_ZSt17__throw_bad_allocv, void)
 THROW(_ZSt24__throw_out_of_range_fmtPKcz, P m, ...)
 void _ZNSt8ios_base4InitC1Ev(P t){}
 void _ZNSt8ios_base4InitD1Ev(P t){}
+
+/* raw byte storage of run-time size (new char[n]): fixed 64-byte typed chunks, so that later addresses stay concrete */
+#define BYTE_CHUNKS 24
+static char bytepool__[BYTE_CHUNKS][64]; static unsigned bytepool_top__;
+P ll_byte_alloc(uint64_t n) { __CPROVER_assert(!verif_rt_section, "C03 heap allocation (operator new[]) inside the realtime section"); __CPROVER_assert(n <= 64, "verif: byte allocation larger than the 64-byte chunk"); __CPROVER_assert(bytepool_top__ < BYTE_CHUNKS, "verif: byte chunk pool exhausted"); return bytepool__[bytepool_top__++]; }
